@@ -9,6 +9,12 @@ Besides single calls the harness drives HISTORIES on one dict: numeric conversio
 time_align_data() calls with different modes / type lists, also starting from read(time_align=..., return_numpy=...).
 Every call of a history is judged on its own: the property (oracle) and the Lean model/spec of ONE alignment applied
 to the message lists found immediately before the call (C15_history_refines_spec: a history is nothing but that).
+
+HISTORIES OF read() CALLS ON ONE LOADER (run_read_histories): 2-4 reads with different type lists, alignment modes,
+aligned_message_types, return_numpy / keep_messages, return_bytes / return_message_index, ignore_cache, max_messages, with
+and without an index file.  Every read of a history is judged on its own by the same oracle and the same Lean model / spec of
+ONE alignment, applied to what a loader that never aligns and never serves from its cache reads for the same types: what an
+aligning read returns must not depend on how earlier reads left the loader's cache.
 """
 import itertools
 import json
@@ -217,8 +223,9 @@ def oracle(ctx, case, r, prefix='C15/', replay=None, note=''):
             if len(md.messages) != len(r['originals'][k]) or any(a is not b for a, b in zip(md.messages, r['originals'][k])):
                 return bad('unaligned-type-modified', '%s (%s) was not to be aligned but its message list changed: %d -> %d entries'
                            % (name, 'no p1_time' if not has_p1(cls) else 'not requested', len(r['originals'][k]), len(md.messages)))
-    # no input object was altered, whether it survived or not
-    for k, (name, _) in enumerate(case['types']):
+    # no input object was altered, whether it survived or not (results of read() are matched with the reference objects BY
+    # content: an entry with altered content has no match and is judged below as an object that is not an original)
+    for k, (name, _) in enumerate(case['types'] if not r.get('matched_by_content') else []):
         for i, m in enumerate(r['originals'][k]):
             if repr(canon.canon(m)) != r['snaps'][k][i]:
                 return bad('original-content-changed', '%s message %d: field values changed' % (name, i))
@@ -767,14 +774,16 @@ def read_case(ctx, case, workdir, tag):
     cls_list = [by_name(n) for n, _ in case['types']]
     req = None if case['req'] is None else [by_name(n) for n in case['req']]
     mode = TimeAlignmentMode.DROP if case['mode'] == 'drop' else TimeAlignmentMode.INSERT
+    nt = case.get('threads')        # None: the indexer's default worker pool (slow to start); 1: indexed in this process
     try:
-        r0 = DataLoader(path).read(message_types=cls_list, show_progress=False)
+        r0 = DataLoader(path, num_threads=nt).read(message_types=cls_list, show_progress=False)
         if case.get('read_numpy'):
-            r1 = DataLoader(path).read(message_types=cls_list, show_progress=False, time_align=mode, aligned_message_types=req,
-                                       return_numpy=True, keep_messages=True)
+            r1 = DataLoader(path, num_threads=nt).read(message_types=cls_list, show_progress=False, time_align=mode,
+                                                       aligned_message_types=req, return_numpy=True, keep_messages=True)
             ctx.count('through_read_time_align_return_numpy')
         else:
-            r1 = DataLoader(path).read(message_types=cls_list, show_progress=False, time_align=mode, aligned_message_types=req)
+            r1 = DataLoader(path, num_threads=nt).read(message_types=cls_list, show_progress=False, time_align=mode,
+                                                       aligned_message_types=req)
     except Exception as e:      # noqa
         ctx.violation('C15/read-%s-raised' % case['mode'], 'read(time_align=...) raised %s: %s' % (type(e).__name__, e), case)
         return None
@@ -784,7 +793,7 @@ def read_case(ctx, case, workdir, tag):
     names = [r0[k].message_class.__name__ for k in r0]
     seen = {'types': [[n, [ftime(m) if has_p1(by_name(n)) else None for m in r0[k].messages]] for n, k in zip(names, r0)],
             'mode': case['mode'], 'req': case['req'], 'via': 'read', 'written': case['types'],
-            'read_numpy': bool(case.get('read_numpy')), 'ops': case.get('ops', [])}
+            'read_numpy': bool(case.get('read_numpy')), 'ops': case.get('ops', []), 'threads': nt}
     out = []
     for n, k in zip(names, r0):
         cls = by_name(n)
@@ -826,6 +835,7 @@ def run_read_cases(ctx, n):
                 case['req'] = [nm for nm in case['req'] if nm in PACKABLE]
             if not case['types']:
                 continue
+            case['threads'] = None if j % 8 == 0 else 1
             # every other case goes on after read(): numeric conversion by read() itself or afterwards, further calls
             if j % 2:
                 case['read_numpy'] = ctx.rng.random() < 0.5
@@ -870,6 +880,340 @@ def judge_read(ctx, seen, txt, steps, outs):
     judge_steps(ctx, steps, outs[2:], seen, what='time_align_data after read(time_align)')
 
 
+# ---- HISTORIES OF read() CALLS ON ONE LOADER ----------------------------------------------------------------------------
+# The DataLoader keeps what it read, per message type, together with the arguments of the call; read(time_align=...) aligns
+# those very objects in place.  What a read returns therefore depends on how earlier reads on the same loader left the
+# cache - unless the code makes sure it does not.  The property speaks about the result of EVERY aligning read, so every
+# read of a history is judged on its own: the property oracle and the Lean model / spec of ONE alignment applied to what a
+# FRESH loader's unaligned read of the same types (same max_messages) contains.  Objects are matched by content (every
+# written message is distinct); a read without alignment must return exactly the fresh lists.
+#
+# read-history = {'via': 'read-history', 'written': [[class name, [time|None, ...]], ...], 'order': [position in 'written' of
+#                 the type of the k-th message of the file, ...], 'index_file': 'none' | 'saved' | 'existing',
+#                 'threads': 1 | None, 'reads': [rd, ...]}
+# rd = {'types': [class names], 'types_form': 'class'|'type'|'mixed'|'single', 'align': 'none'|'drop'|'insert',
+#       'req': None | [class names], 'req_form', 'req_container', 'numpy': bool, 'keep': bool, 'remove_nan': bool,
+#       'bytes': bool, 'index': bool, 'ignore_cache': bool, 'max': None | int}
+ABSENT = ['GNSSSatelliteMessage', 'VersionInfoMessage']     # requested now and then, never in the file
+RD_DEFAULT = {'types_form': 'class', 'align': 'none', 'req': None, 'req_form': 'class', 'req_container': 'list', 'numpy': False,
+              'keep': False, 'remove_nan': True, 'bytes': False, 'index': False, 'ignore_cache': False, 'max': None}
+
+
+def rd_make(types, align='none', req=None, **kw):
+    d = dict(RD_DEFAULT)
+    d.update(types=list(types), align=align, req=None if req is None else list(req))
+    d.update(kw)
+    return d
+
+
+def type_list(names, form, container='list'):
+    cl = [by_name(n) for n in names]
+    if form == 'single' and len(cl) == 1:
+        return cl[0]
+    r = [(c if (form == 'class' or form == 'single' or (form == 'mixed' and i % 2 == 0)) else c.MESSAGE_TYPE) for i, c in enumerate(cl)]
+    return set(r) if container == 'set' else tuple(r) if container == 'tuple' else r
+
+
+def read_text(rd):
+    s = 'read(%s' % '+'.join(rd['types'])
+    if rd['align'] != 'none':
+        s += ',%s' % op_text({'op': 'align', 'mode': rd['align'], 'req': rd['req']})
+    elif rd['req'] is not None:
+        s += ',aligned=%s' % ','.join(rd['req'])
+    if rd['numpy']:
+        s += ',numpy' + ('' if rd['keep'] else '-only') + ('' if rd['remove_nan'] else '-keep-nan')
+    for k in ('bytes', 'index', 'ignore_cache'):
+        if rd[k]:
+            s += ',' + k
+    if rd['max'] is not None:
+        s += ',max=%d' % rd['max']
+    return s + ')'
+
+
+def read_kwargs(rd):
+    from fusion_engine_client.analysis.data_loader import TimeAlignmentMode
+    mode = {'none': TimeAlignmentMode.NONE, 'drop': TimeAlignmentMode.DROP, 'insert': TimeAlignmentMode.INSERT}[rd['align']]
+    kw = {'message_types': type_list(rd['types'], rd['types_form']), 'show_progress': False, 'time_align': mode,
+          'aligned_message_types': None if rd['req'] is None else type_list(rd['req'], rd['req_form'], rd['req_container']),
+          'return_numpy': rd['numpy'], 'keep_messages': rd['keep'], 'remove_nan_times': rd['remove_nan'],
+          'return_bytes': rd['bytes'], 'return_message_index': rd['index'], 'ignore_cache': rd['ignore_cache']}
+    if rd['max'] is not None:
+        kw['max_messages'] = rd['max']
+    return kw
+
+
+class _Listed(object):
+    """What the oracle looks at in a MessageData."""
+    def __init__(self, md, messages):
+        self.message_type, self.message_class, self.messages = md.message_type, md.message_class, messages
+
+
+def spec_view(txt, flags):
+    """The driver's answer restricted to what a read result shows of each type: flags[key] = (messages listed?, numeric
+    p1_time member present? - compared on its valid times)."""
+    if txt.startswith('error') or txt == 'bad-args':
+        return txt
+    out = []
+    for part in txt.split(';'):
+        key, _, items = part.partition(':')
+        items = items.split(',') if items else []
+        msgs, arr = flags[key]
+        s = key + ':' + (','.join(items) if msgs else '~')
+        if arr:
+            s += '|' + ','.join(t for t in (it.split('@')[1] for it in items) if t != 'n')
+        out.append(s)
+    return ';'.join(out)
+
+
+def write_history_log(hist, workdir, tag):
+    import os
+    from fusion_engine_client.parsers import FusionEngineEncoder
+    data = build({'types': hist['written']})
+    queues = [list(md.messages) for md in data.values()]
+    path = os.path.join(workdir, 'c15_%s.p1log' % tag)
+    enc = FusionEngineEncoder()
+    with open(path, 'wb') as f:
+        for q in hist['order']:
+            f.write(enc.encode_message(queues[q].pop(0)))
+    return path
+
+
+def run_read_history(ctx, hist, workdir, tag):
+    """Carries out the reads of `hist` on one loader.  Returns [(step, result text, flags, ok, note)] for the judged reads."""
+    import os
+    from fusion_engine_client.analysis.data_loader import DataLoader
+    path = write_history_log(hist, workdir, tag)
+    nthreads = hist.get('threads', 1)
+    kind = hist.get('index_file', 'none')
+    if kind == 'existing':
+        DataLoader(path, save_index=True, ignore_index=False, num_threads=1)        # leaves the .p1i file behind
+        if not os.path.exists(path[:-len('p1log')] + 'p1i'):
+            ctx.count('observation_no_index_file_written')
+    if kind == 'none':
+        loader = DataLoader(path, save_index=False, ignore_index=True, num_threads=nthreads)
+    else:
+        loader = DataLoader(path, save_index=True, ignore_index=False, num_threads=nthreads)
+    ctx.count('read_history_index_file_' + kind)
+    ctx.count('read_history_with_%d_reads' % len(hist['reads']))
+    judged, done = [], []
+    made_by = {}        # id(cache entry) -> number of the read that returned it first
+    alive = []
+    fresh, refs = [None], {}
+    for j, rd in enumerate(hist['reads']):
+        mode = rd['align']
+        site = 'C15/read-history-' + mode
+        note = 'read %d of the history [%s] -> %s: ' % (j + 1, ' '.join(done), read_text(rd))
+        # how the cache stands for this read: entries of an identical earlier read, all / some / none still in place
+        same = [i for i in range(j) if hist['reads'][i] == rd]
+        if same and mode != 'none' and not rd['ignore_cache']:
+            kept = [t for t in rd['types'] if made_by.get(id(loader.data.get(by_name(t).MESSAGE_TYPE))) in same]
+            ctx.count('aligned_read_repeated_%s_entries_still_cached' % ('all' if len(kept) == len(rd['types']) else 'some' if kept else 'no'))
+        try:
+            res = loader.read(**read_kwargs(rd))
+            # the reference: the same types (and max_messages) read without alignment by a loader that never aligns and
+            # never serves from its cache (one per history, opened without an index file)
+            rkey = (tuple(sorted(rd['types'])), rd['max'])
+            if rkey not in refs:
+                if fresh[0] is None:
+                    fresh[0] = DataLoader(path, save_index=False, ignore_index=True, num_threads=1)
+                ref = fresh[0].read(message_types=[by_name(n) for n in rd['types']], show_progress=False, ignore_cache=True,
+                                    **({} if rd['max'] is None else {'max_messages': rd['max']}))
+                refs[rkey] = (ref, {k: [repr(canon.canon(m)) for m in md.messages] for k, md in ref.items()})
+            ref, ref_snaps = refs[rkey]
+        except Exception as e:      # noqa
+            ctx.violation(site + '-raised', note + 'read() raised %s: %s' % (type(e).__name__, e), hist)
+            break
+        alive.append((res, ref))
+        for md in res.values():
+            made_by.setdefault(id(md), j)
+        if set(res.keys()) != set(ref.keys()):
+            ctx.violation(site + '-keys-differ', note + 'the result has the types %s, an unaligned read by a fresh loader %s'
+                          % (sorted(int(k) for k in res), sorted(int(k) for k in ref)), hist)
+            break
+        keys = list(res.keys())
+        names = [ref[k].message_class.__name__ for k in keys]
+        # one alignment of the fresh lists; a read without alignment is the alignment of no type
+        step = {'mode': mode if mode != 'none' else 'drop', 'req': rd['req'] if mode != 'none' else [],
+                'types': [[n, [ftime(m) if has_p1(by_name(n)) else None for m in ref[k].messages]] for n, k in zip(names, keys)]}
+        originals = [list(ref[k].messages) for k in keys]
+        snaps = [ref_snaps[k] for k in keys]
+        views, flags, parts = [], {}, []
+        cleared_any = False
+        for n, k, lst, sn in zip(names, keys, originals, snaps):
+            cls = by_name(n)
+            idx = {}
+            for i, x in enumerate(sn):
+                idx.setdefault(x, i)
+            shown = [lst[i] if i is not None else m for m, i in ((m, idx.get(repr(canon.canon(m)))) for m in res[k].messages)]
+            views.append(_Listed(res[k], shown))
+            # return_numpy: the numeric p1_time member is a second view of the aligned series (valid times only: which NaN
+            # entries a conversion removes is not a statement of C15); with keep_messages=False it is the only one left
+            converted = rd['numpy'] and hasattr(cls, 'to_numpy')
+            arr = res[k].__dict__.get('p1_time') if (converted and has_p1(cls)) else None
+            if arr is not None and not isinstance(arr, np.ndarray):
+                arr = None
+            cleared = converted and not rd['keep'] and len(res[k].messages) == 0
+            if converted and not rd['keep'] and not cleared:
+                ctx.count('observation_messages_not_cleared_by_return_numpy')
+            cleared_any = cleared_any or cleared
+            flags[str(int(cls.MESSAGE_TYPE))] = (not cleared, arr is not None)
+            parts.append((cleared, arr))
+        data = dict(zip(keys, views))
+        r = {'data': data, 'ret': data, 'keys': keys, 'mds': views, 'originals': originals,
+             'ids': [{id(m): i for i, m in enumerate(lst)} for lst in originals], 'snaps': snaps,
+             'meta': [(ref[k].message_type, ref[k].message_class) for k in keys], 'err': None, 'matched_by_content': True}
+        classify(ctx, step)
+        ctx.count('read_history_reads_' + mode)
+        if rd['numpy']:
+            ctx.count('read_history_reads_numpy_' + ('keep_messages' if rd['keep'] else 'only'))
+        if j and mode != 'none':
+            ctx.count('aligning_reads_after_earlier_reads')
+        ok = True
+        if not cleared_any:
+            ok = oracle(ctx, dict(step, mode=mode), r, prefix='C15/read-history-', replay=hist, note=note)
+        full = impl_text(step, r).split(';')
+        txt = []
+        for s, (cleared, arr) in zip(full, parts):
+            key, _, items = s.partition(':')
+            s = key + ':' + ('~' if cleared else items)
+            if arr is not None:
+                s += '|' + ','.join(tkey(float(t)) for t in arr if t == t)
+            txt.append(s)
+        judged.append((step, ';'.join(txt), flags, ok, note, mode))
+        ctx.case('readhist %s %s' % (read_text(rd), model_line('align', step)), nontrivial=mode != 'none' and nontrivial(step))
+        if not ok:
+            break
+        done.append(read_text(rd))
+    return judged
+
+
+def judge_read_history(ctx, hist, judged, outs):
+    for j, (step, txt, flags, ok, note, mode) in enumerate(judged):
+        mo, so = spec_view(outs[2 * j], flags), spec_view(outs[2 * j + 1], flags)
+        if txt != mo:
+            ctx.disagree('read() in a history != model of one alignment of the fresh lists, %simpl=%s model=%s' % (note, txt[:300], mo[:300]), hist)
+        if ok and txt != so:
+            ctx.violation('C15/read-history-%s-differs-from-spec' % mode, '%simpl=%s spec=%s' % (note, txt[:300], so[:300]), hist)
+        if outs[2 * j] != outs[2 * j + 1]:
+            ctx.disagree('model != spec (contradicts the proved refinement): %s vs %s' % (outs[2 * j][:200], outs[2 * j + 1][:200]), hist)
+        ctx.cov['traces_validated_against_impl'] += 1
+
+
+def run_read_histories(ctx, hists):
+    import os
+    import shutil
+    import tempfile
+    workdir = tempfile.mkdtemp(prefix='c15_', dir=fv.BUILD)
+    lines, pending = [], []
+    try:
+        for n, hist in enumerate(hists):
+            judged = run_read_history(ctx, hist, workdir, 'h%d' % n)
+            for f in os.listdir(workdir):           # the log and its index file, if one was written
+                os.remove(os.path.join(workdir, f))
+            base = len(lines)
+            for step, _, _, _, _, _ in judged:
+                lines.append(model_line('align', step))
+                lines.append(model_line('alignspec', step))
+            pending.append((hist, judged, base))
+    finally:
+        shutil.rmtree(workdir, ignore_errors=True)
+    outs = ctx.driver(lines)
+    for hist, judged, base in pending:
+        judge_read_history(ctx, hist, judged, outs[base: base + 2 * len(judged)])
+    for hist, judged, _ in pending[:: max(1, len(pending) // 2)][:2]:
+        ctx.sample({'read_history': hist, 'reads': [t for _, t, _, _, _, _ in judged]})
+
+
+def file_order(rng, written):
+    order = [q for q, (_, ts) in enumerate(written) for _ in ts]
+    rng.shuffle(order)
+    return order
+
+
+def read_history_grid(ctx):
+    """Directed family: an aligning read R, a read P that touches the cache entries of SOME of R's types (or all, or
+    none) with other arguments, then R again (and a variant of R).  Log: two P1 types over every pair of subsets of a grid,
+    a third P1 type and a type without P1 time; R over {A,B} / {A,B,C} / {A,B,X} x {DROP, INSERT} x aligned_message_types."""
+    p1, nop1 = classes()
+    A, B, C = 'PoseMessage', 'PoseAuxMessage', 'GNSSInfoMessage'
+    X = 'EventNotificationMessage'
+    rng = ctx.rng
+    subs = list(subsets([1.0, 2.0, 3.0]))
+    hists = []
+    for sa, sb in itertools.product(subs, subs):
+        written = [[A, sa], [B, sb], [C, [2.0, 3.0, 5.0]], [X, [None, None]]]
+        for mode in ('drop', 'insert'):
+            other = 'insert' if mode == 'drop' else 'drop'
+            Rs = [rd_make([A, B], mode), rd_make([A, B, X], mode), rd_make([A, B, C], mode, [A, B]), rd_make([B, A, C], mode),
+                  rd_make([A, B], mode, numpy=True, keep=True), rd_make([A, B, C], mode, [A, C], req_form='type', types_form='type')]
+            for R in (Rs if ctx.thorough else [Rs[rng.randrange(len(Rs))]]):
+                T = R['types']
+                Ps = [rd_make([A]), rd_make([B]), rd_make([T[-1]]), rd_make([A], mode), rd_make([B], other), rd_make(T, other),
+                      rd_make(T[:2], mode, [A]), rd_make([A], numpy=True), rd_make([B], numpy=True, keep=True), rd_make([A, C], mode),
+                      rd_make(T, 'none'), rd_make(T[1:], mode, R['req']), rd_make([A], mode, ignore_cache=True), rd_make([B], max=1),
+                      rd_make(T, mode, R['req'], index=True), rd_make([A], bytes=True)]
+                for P in (Ps if ctx.thorough else rng.sample(Ps, 3)):
+                    last = rng.choice([R, R, dict(R, numpy=True, keep=True), dict(R, types=list(reversed(T))), dict(R, align=other)])
+                    reads = [R, P, R] + ([last] if rng.random() < 0.3 else [])
+                    hists.append({'via': 'read-history', 'written': written, 'order': file_order(rng, written),
+                                  'index_file': rng.choice(['none', 'saved', 'existing']), 'threads': 1,
+                                  'reads': [dict(x) for x in reads]})
+    return hists
+
+
+def random_read(rng, present, earlier):
+    """One read over the types of the file (now and then one that is not there); half of the time an earlier read of the
+    history again, as it was or with one argument changed."""
+    if earlier and rng.random() < 0.5:
+        rd = dict(rng.choice(earlier))
+        if rng.random() < 0.5:
+            return rd
+        k = rng.choice(['types', 'align', 'req', 'numpy', 'form', 'misc'])
+        if k == 'types':
+            rd['types'] = rng.sample(present, rng.randrange(1, len(present) + 1))
+        elif k == 'align':
+            rd['align'] = rng.choice(['none', 'drop', 'insert'])
+        elif k == 'req':
+            rd['req'] = rng.choice([None, [], [n for n in rd['types'] if rng.random() < 0.6]])
+        elif k == 'numpy':
+            rd['numpy'], rd['keep'] = rng.choice([(False, False), (True, True), (True, False)])
+        elif k == 'form':
+            rd['types_form'], rd['req_form'] = rng.choice(['class', 'type', 'mixed']), rng.choice(['class', 'type', 'mixed'])
+            rd['req_container'] = rng.choice(['list', 'set', 'tuple'])
+        else:
+            f = rng.choice(['bytes', 'index', 'ignore_cache', 'remove_nan'])
+            rd[f] = not rd[f]
+        return rd
+    types = rng.sample(present, rng.randrange(1, len(present) + 1))
+    if rng.random() < 0.08:
+        types.append(rng.choice(ABSENT))
+    align = rng.choice(['none', 'drop', 'insert', 'drop', 'insert'])
+    r = rng.random()
+    req = None if r < 0.5 else [n for n in types if rng.random() < 0.6] + ([rng.choice(PACKABLE + ABSENT)] if rng.random() < 0.2 else [])
+    if req is not None:
+        req = list(dict.fromkeys(req))
+    numpy_, keep = rng.choice([(False, False), (False, False), (True, True), (True, False)])
+    return rd_make(types, align, req, types_form='single' if len(types) == 1 and rng.random() < 0.3 else rng.choice(['class', 'type', 'mixed']),
+                   req_form=rng.choice(['class', 'type', 'mixed']), req_container=rng.choice(['list', 'set', 'tuple']),
+                   numpy=numpy_, keep=keep, remove_nan=rng.random() < 0.8, bytes=rng.random() < 0.15, index=rng.random() < 0.15,
+                   ignore_cache=rng.random() < 0.1, max=rng.choice([1, 2, 3, 5, -1, -2, -4]) if rng.random() < 0.1 else None)
+
+
+def random_read_history(rng):
+    """Random file (as random_case: nested / disjoint / empty / repeated / unordered / invalid times) and 2-4 reads."""
+    while True:
+        case = random_case(rng)
+        written = [[nm, [None if t is None else float(abs(int(t))) for t in ts][:10]] for nm, ts in case['types'] if nm in PACKABLE]
+        if written:
+            break
+    present = [nm for nm, _ in written]
+    reads = []
+    for _ in range(rng.choice([2, 3, 3, 3, 4])):
+        reads.append(random_read(rng, present, reads))
+    return {'via': 'read-history', 'written': written, 'order': file_order(rng, written),
+            'index_file': rng.choice(['none', 'saved', 'existing']), 'threads': 1 if rng.random() < 0.97 else None, 'reads': reads}
+
+
 def run(ctx, budget):
     cases = exhaustive(ctx) + sequences(ctx)
     ctx.count('exhaustive_grid_cases', len(cases))
@@ -882,12 +1226,18 @@ def run(ctx, budget):
     hists += [random_history(ctx.rng) for _ in range(budget)]
     run_histories(ctx, hists)
     run_read_cases(ctx, 400 if ctx.thorough else 100)
+    grid = read_history_grid(ctx)
+    ctx.count('read_history_grid', len(grid))
+    rnd = [random_read_history(ctx.rng) for _ in range(4000 if ctx.thorough else 700)]
+    ctx.count('read_history_random', len(rnd))
+    run_read_histories(ctx, grid + rnd)
     numpy_model(ctx, 3000 if ctx.thorough else 600)
 
 
 def search(ctx):
     run_cases(ctx, [scale_case(random_case(ctx.rng)) for _ in range(6000)])
     run_histories(ctx, [random_history(ctx.rng) for _ in range(4000)])
+    run_read_histories(ctx, [random_read_history(ctx.rng) for _ in range(3000)])
 
 
 def check(ctx):
@@ -909,6 +1259,20 @@ def check(ctx):
                        'read(time_align=..., return_numpy=T/F, keep_messages=True) on a written log and go on with the dict it '
                        'returned. Every call of a history is judged against the lists found immediately before it (property oracle + '
                        'Lean model + Lean spec of one call), the final lists against alignSeq / specAlignSeq of the whole history. '
+                       'HISTORIES OF read() CALLS ON ONE DataLoader: written logs of 1-5 types; 2-4 reads, each with its own type list '
+                       '(classes / MessageType / mixed / a single class; now and then a type that is not in the file), time_align in '
+                       '{NONE, DROP, INSERT}, aligned_message_types (None / [] / subsets, list / set / tuple), return_numpy with '
+                       'keep_messages True / False, remove_nan_times, return_bytes, return_message_index, ignore_cache, max_messages; the '
+                       'loader opened without an index file / writing one / finding one; half of the random reads repeat an earlier read '
+                       'of the history as it was or with one argument changed.  Directed: two P1 types over every pair of subsets of a '
+                       '3-point grid + a third P1 type + a type without P1 time, histories R P R [R\'] with R an '
+                       'aligning read over {A,B} / {A,B,C} / {A,B,X} and P one of 16 reads that replace the cache entries of some, all or '
+                       'none of R\'s types (other mode, other type list, other selection, unaligned, numeric, ignore_cache, max_messages; '
+                       'quick: one R and three P per pair and mode, thorough: all).  EVERY read of a history is judged: the property '
+                       'oracle and the Lean model + spec of ONE alignment (a read without alignment: the alignment of no type) applied to '
+                       'the lists a loader that never aligns and never serves from its cache reads for the same types and '
+                       'max_messages, objects matched by content; with return_numpy the valid times of the numeric p1_time member are '
+                       'compared with the same spec result (with keep_messages=False that member is all that is left of a type). '
                        'non-trivial = at least two aligned types, '
                        'one of them non-empty; distinct = distinct (mode, message_types, per-type time lists)')
     ctx.assumptions += [
@@ -922,6 +1286,13 @@ def check(ctx):
         'a numeric conversion with keep_messages=True is the identity on the model state (the message lists); the harness checks that '
         'it leaves the lists alone (a difference is reported as a correspondence failure, it is not a statement of C15); what it '
         'attaches to the entry is no input of time_align_data in the model - an implementation that reads it is judged by its results',
+        'a read() result is compared with the reference read by CONTENT (canon() of every message; every written message is '
+        'distinct): an entry equal in content to the i-th message the reference loader read for that type counts as that message; '
+        'the reference is DataLoader(path, save_index=False, ignore_index=True).read(same types, same max_messages, ignore_cache=True)',
+        'observed, outside the property text: read(return_numpy=True, return_bytes=True) does not finish the numeric conversion '
+        '(np.array(list of bytes, dtype=uint64) raises ValueError, which DataLoader.to_numpy() swallows): NaN times stay in the arrays '
+        'and keep_messages=False does not clear the messages (counted as observation_messages_not_cleared_by_return_numpy); the '
+        'harness then judges the messages, and compares only the valid times of the arrays',
         'observed, outside the property text: an inserted message carries its time as numpy.float64 rather than Timestamp (pack() of it '
         'raises); MessageData.message_bytes / message_index / num_messages and the numpy members attached by to_numpy() are not '
         'realigned by time_align_data (counted as observation_numpy_members_not_realigned)']
@@ -939,13 +1310,15 @@ def replay(ctx, path):
     case = obj['input']
     if 'numpy_line' in case:
         numpy_model(ctx, 50)
+    elif case.get('via') == 'read-history':
+        run_read_histories(ctx, [case])
     elif case.get('via') == 'read':
         import shutil
         import tempfile
         workdir = tempfile.mkdtemp(prefix='c15_', dir=fv.BUILD)
         try:
             c = {'mode': case['mode'], 'req': case['req'], 'types': case['written'],
-                 'read_numpy': case.get('read_numpy', False), 'ops': case.get('ops', [])}
+                 'read_numpy': case.get('read_numpy', False), 'ops': case.get('ops', []), 'threads': case.get('threads')}
             res = read_case(ctx, c, workdir, 'replay')
             if res is not None:
                 seen, txt, steps = res
